@@ -280,6 +280,12 @@ class _AReader:
         self.rec = rec
 
     async def read(self, n: int) -> bytes:
+        # like asyncio.StreamReader.read(n): at most n bytes of what has arrived; the rest stays buffered for the next read
+        pend = getattr(self, "_pend", b"")
+        if pend:
+            item, self._pend = pend[:n], pend[n:]
+            self.rec.label("srvRead", len(item))
+            return item
         if self.eof and self.q.empty():
             # like asyncio.StreamReader: at end of stream read() returns b"" at once
             self.rec.label("srvRead", 0)
@@ -288,11 +294,13 @@ class _AReader:
         if isinstance(item, BaseException):
             self.rec.label("srvRead", "reset")
             raise item
+        if n is not None and 0 <= n < len(item):
+            item, self._pend = item[:n], item[n:]
         self.rec.label("srvRead", len(item))
         return item
 
     def at_eof(self) -> bool:
-        return self.eof and self.q.empty()
+        return self.eof and self.q.empty() and not getattr(self, "_pend", b"")
 
 
 class _AWriter:
@@ -641,6 +649,12 @@ def run_trio(cfg: dict, alpn: Optional[str], client: Callable[[ClientIO], Awaita
         async def receive_some(self, n: int) -> bytes:
             if self.closed:
                 raise trio.ClosedResourceError()
+            # like a socket stream's receive_some(max_bytes): at most n bytes of what has arrived, the rest stays for the next call
+            pend = getattr(self, "_pend", b"")
+            if pend:
+                item, self._pend = pend[:n], pend[n:]
+                rec.label("srvRead", len(item))
+                return item
             try:
                 item = await io.recv_ch.receive()
             except (trio.ClosedResourceError, trio.EndOfChannel):
@@ -648,6 +662,8 @@ def run_trio(cfg: dict, alpn: Optional[str], client: Callable[[ClientIO], Awaita
             if isinstance(item, BaseException):
                 rec.label("srvRead", "reset")
                 raise item
+            if n is not None and 0 <= n < len(item):
+                item, self._pend = item[:n], item[n:]
             rec.label("srvRead", len(item))
             return item
 
